@@ -997,8 +997,19 @@ impl World {
         g.stats.handoffs += 1;
         let cv = g.tasks[t as usize].cv.clone();
         cv.notify_one();
+        let t0 = std::time::Instant::now();
         while g.running.is_some() {
-            g = self.driver_cv.wait(g).unwrap_or_else(|e| e.into_inner());
+            let (g2, to) = self.driver_cv.wait_timeout(g, Duration::from_secs(2)).unwrap_or_else(|e| e.into_inner());
+            g = g2;
+            if to.timed_out() && g.running.is_some() && t0.elapsed() > Duration::from_secs(stuck_limit_s()) {
+                // The released thread did not come back to a scheduling point: it is blocked in a real
+                // system call or spinning. It cannot be unwound, so the process reports and leaves
+                // (exit 71); the parent turns that into a `task_stuck` finding with its own replay file.
+                let label = format!("task {t} (started by {:?})", g.tasks[t as usize].parent);
+                let last: Vec<String> = g.trace.as_ref().map(|tr| tr.iter().rev().take(6).rev().cloned().collect()).unwrap_or_default();
+                eprintln!("task '{label}' did not return to the simulator within {} s of real time (blocked outside the simulation or spinning); last events: {last:?}", stuck_limit_s());
+                std::process::exit(71);
+            }
         }
         g
     }
@@ -1522,4 +1533,10 @@ impl Backend for World {
         }
         Ok(())
     }
+}
+
+/// Real seconds a released thread may take to reach its next scheduling point before the run is
+/// declared stuck. One step of real code takes microseconds to (for gigabyte windows) a second or two.
+pub fn stuck_limit_s() -> u64 {
+    std::env::var("VERIF_STUCK_S").ok().and_then(|v| v.parse().ok()).unwrap_or(60)
 }
